@@ -612,9 +612,10 @@ class H5Writer:
                     ]
 
             # Adding an array of values
-            if isinstance(values, dict) or isinstance(entity, CommentsData):
+            is_comments = isinstance(entity, CommentsData) and attribute == "values"
+            if isinstance(values, dict) or is_comments:
                 values = deepcopy(values)
-                if isinstance(entity, CommentsData):
+                if is_comments:
                     values = {"Comments": values}
 
                 values = dict_mapper(values, [as_str_if_uuid])
